@@ -43,3 +43,222 @@ Proof. exact select_is_max. Qed.
 Theorem C01_selection_is_order_independent_partial : forall l l', Permutation l l' -> l <> [] -> (forall q, In q l -> 0 < p_prio q) ->
   (forall a b, In a l -> In b l -> p_prio a = p_prio b -> a = b) -> select l = select l'.
 Proof. exact select_order_independent. Qed.
+
+(** * The check-list kernel of agent/conncheck.c (model Agent/CheckListModel.v, tied to the real static functions by
+    harness/checklist_h.c on every run, compared inside Coq).  All statements are for ALL check lists (any length, any number of
+    streams and components).  What the code does NOT guarantee is kept as [..._refuted] witnesses at the end. *)
+From Nice Require Import Agent.CheckListModel Agent.CheckListProofs.
+
+(** ** unfreezing (RFC 8445 6.1.2.6, 6.1.4.2 step 2, 7.2.5.3.3) *)
+(** priv_conn_check_unfreeze_next changes nothing but the state of some FROZEN pairs, to WAITING *)
+Theorem C01_checklist_unfreeze_next_only_thaws_partial : forall ss, Forall2 (Forall2 thaw_rel) ss (snd (unfreeze_next ss)).
+Proof. exact unfreeze_next_only_thaws. Qed.
+Print Assumptions C01_checklist_unfreeze_next_only_thaws_partial.
+Theorem C01_checklist_unfreeze_related_only_thaws_partial : forall ss ok, Forall2 (Forall2 thaw_rel) ss (unfreeze_related ss ok).
+Proof. exact unfreeze_related_only_thaws. Qed.
+Print Assumptions C01_checklist_unfreeze_related_only_thaws_partial.
+(** after conn_check_unfreeze_related no pair of the succeeded pair's foundation is left FROZEN, in any stream *)
+Theorem C01_checklist_unfreeze_related_exact_partial : forall ss ok l p, In l (unfreeze_related ss ok) -> In p l ->
+  ~ (p_state p = Frozen /\ fnd p = fnd ok).
+Proof. exact unfreeze_related_exact. Qed.
+Print Assumptions C01_checklist_unfreeze_related_exact_partial.
+Theorem C01_checklist_unfreeze_maybe_only_thaws_partial : forall ss id,
+  (forall l p, In l ss -> In p l -> p_id p = id -> p_state p = Frozen) ->
+  Forall2 (Forall2 thaw_rel) ss (unfreeze_maybe ss id).
+Proof. exact unfreeze_maybe_only_thaws. Qed.
+Print Assumptions C01_checklist_unfreeze_maybe_only_thaws_partial.
+(** the exact rule of priv_conn_check_unfreeze_next: with no WAITING pair in the agent, the k-th pair (streams in order, lists in order) is
+    thawed iff it is FROZEN and no FROZEN pair before it has its foundation; IN_PROGRESS pairs are ignored (deviation from RFC 8445, below) *)
+Theorem C01_checklist_unfreeze_next_rule_partial : forall ss l1 p l2, any_waiting ss = false -> concat ss = l1 ++ p :: l2 ->
+  nth_error (concat (snd (unfreeze_next ss))) (length l1) =
+  Some (if is_state Frozen p && negb (existsb (fun q => is_state Frozen q && fnd_eqb q p) l1) then set_state p Waiting else p).
+Proof. exact unfreeze_next_rule. Qed.
+Print Assumptions C01_checklist_unfreeze_next_rule_partial.
+Theorem C01_checklist_one_waiting_pair_per_foundation_partial : forall ss, any_waiting ss = false ->
+  NoDup (map fnd (filter (is_state Waiting) (concat (snd (unfreeze_next ss))))).
+Proof. exact unfreeze_next_one_waiting_per_foundation. Qed.
+Print Assumptions C01_checklist_one_waiting_pair_per_foundation_partial.
+(** progress: whenever a pair is WAITING or FROZEN the function returns TRUE and a WAITING pair exists afterwards; when it returns FALSE
+    nothing changed and no pair is WAITING or FROZEN *)
+Theorem C01_checklist_unfreeze_next_progress_partial : forall ss,
+  (exists l p, In l ss /\ In p l /\ (p_state p = Waiting \/ p_state p = Frozen)) ->
+  fst (unfreeze_next ss) = true /\ any_waiting (snd (unfreeze_next ss)) = true.
+Proof. exact unfreeze_next_progress. Qed.
+Print Assumptions C01_checklist_unfreeze_next_progress_partial.
+Theorem C01_checklist_unfreeze_next_false_partial : forall ss, fst (unfreeze_next ss) = false ->
+  snd (unfreeze_next ss) = ss /\ forall l p, In l ss -> In p l -> p_state p <> Waiting /\ p_state p <> Frozen.
+Proof. exact unfreeze_next_false. Qed.
+Print Assumptions C01_checklist_unfreeze_next_false_partial.
+Theorem C01_checklist_unfreeze_next_idempotent_partial : forall ss, snd (unfreeze_next (snd (unfreeze_next ss))) = snd (unfreeze_next ss).
+Proof. exact unfreeze_next_idempotent. Qed.
+Print Assumptions C01_checklist_unfreeze_next_idempotent_partial.
+
+(** ** which pair is checked next (RFC 8445 6.1.4.2 step 3) *)
+(** an ordinary check goes to the first WAITING pair of the stream after the unfreezing step; the list being sorted by priority, to a
+    WAITING pair of maximal priority (ties: the first in list order, not the lowest component id - see the witness below) *)
+Theorem C01_checklist_next_check_is_best_waiting_partial : forall ss si p ss', ordinary_select ss si = (Some p, ss') ->
+  Forall2 (Forall2 thaw_rel) ss ss' /\ In p (nth si ss' []) /\ p_state p = Waiting /\
+  (sorted_desc (nth si ss' []) -> forall q, In q (nth si ss' []) -> p_state q = Waiting -> p_prio q <= p_prio p).
+Proof. exact ordinary_select_picks_best_waiting. Qed.
+Print Assumptions C01_checklist_next_check_is_best_waiting_partial.
+Theorem C01_checklist_next_check_exact_partial : forall ss si,
+  ordinary_select ss si = (find_next_waiting (nth si (snd (unfreeze_next ss)) []), snd (unfreeze_next ss)).
+Proof. exact ordinary_select_eq. Qed.
+Print Assumptions C01_checklist_next_check_exact_partial.
+(** the scheduler cannot stall: with credentials known and a working socket, the ordinary-check step of the Ta tick starts a check whenever
+    some pair of some stream is WAITING or FROZEN (whatever else is IN_PROGRESS); otherwise it does nothing at all *)
+Theorem C01_checklist_scheduler_progress_partial : forall rfc ctl ss, Forall (fun s => s_creds s = true) ss ->
+  (exists s p, In s ss /\ In p (s_pairs s) /\ (p_state p = Waiting \/ p_state p = Frozen)) ->
+  fst (fst (ordinary_agent rfc ctl (fun _ => true) ss)) = true.
+Proof. exact ordinary_agent_progress. Qed.
+Print Assumptions C01_checklist_scheduler_progress_partial.
+Theorem C01_checklist_scheduler_idle_partial : forall rfc ctl ok ss,
+  (forall s p, In s ss -> In p (s_pairs s) -> p_state p <> Waiting /\ p_state p <> Frozen) ->
+  ordinary_agent rfc ctl ok ss = (false, ss, []).
+Proof. exact ordinary_agent_idle. Qed.
+Print Assumptions C01_checklist_scheduler_idle_partial.
+
+(** ** pruning after a nomination (priv_prune_pending_checks, RFC 5245 8.1.2) *)
+(** the function is a filter and a map: [prunable] pairs are deleted, [touch] is applied to the others, [blocking] pairs are counted *)
+Theorem C01_checklist_prune_exact_partial : forall cid sel l,
+  prune cid sel l = (Z.of_nat (length (filter (blocking cid sel) l)), map (touch cid sel) (filter (fun p => negb (prunable cid sel p)) l)).
+Proof. exact prune_spec. Qed.
+Print Assumptions C01_checklist_prune_exact_partial.
+Theorem C01_checklist_prune_deletes_exactly_partial : forall cid sel p, prunable cid sel p = true <->
+  p_comp p = cid /\ ((p_trig p = true /\ p_state p <> InProgress /\ p_prio p < sel) \/
+                     (p_trig p = false /\ (p_state p = Frozen \/ p_state p = Waiting))).
+Proof. exact prunable_true_iff. Qed.
+Print Assumptions C01_checklist_prune_deletes_exactly_partial.
+Theorem C01_checklist_prune_counts_exactly_partial : forall cid sel p, blocking cid sel p = true <->
+  p_comp p = cid /\ sel <= p_prio p /\ (p_state p = InProgress \/ p_trig p = true).
+Proof. exact blocking_true_iff. Qed.
+Print Assumptions C01_checklist_prune_counts_exactly_partial.
+Theorem C01_checklist_prune_spares_other_components_partial : forall cid sel l,
+  filter (fun p => negb (p_comp p =? cid)) (snd (prune cid sel l)) = filter (fun p => negb (p_comp p =? cid)) l.
+Proof. exact prune_other_components. Qed.
+Print Assumptions C01_checklist_prune_spares_other_components_partial.
+(** never deleted: a SUCCEEDED / DISCOVERED / FAILED pair whose priority is at least the selected pair's (the selected nominated pair itself),
+    or that is not queued for a triggered check *)
+Theorem C01_checklist_prune_keeps_selected_partial : forall cid sel l p, In p l -> sel <= p_prio p \/ p_trig p = false ->
+  p_state p = Succeeded \/ p_state p = Discovered \/ p_state p = Failed -> In p (snd (prune cid sel l)).
+Proof. exact prune_keeps_completed. Qed.
+Print Assumptions C01_checklist_prune_keeps_selected_partial.
+Theorem C01_checklist_prune_keeps_sorted_partial : forall cid sel l, sorted_desc l -> sorted_desc (snd (prune cid sel l)).
+Proof. exact prune_sorted. Qed.
+Print Assumptions C01_checklist_prune_keeps_sorted_partial.
+Theorem C01_checklist_prune_idempotent_partial : forall cid sel l, prune cid sel (snd (prune cid sel l)) = prune cid sel l.
+Proof. exact prune_idempotent. Qed.
+Print Assumptions C01_checklist_prune_idempotent_partial.
+
+(** ** the READY and FAILED decisions *)
+Theorem C01_checklist_ready_only_if_partial : forall l c l' c' o, for_ready l c = (l', c', o) -> In st_READY o ->
+  (exists p, In p l /\ p_comp p = c_id c /\ p_valid p = true /\ p_nom p = true) /\
+  (forall q, In q l -> p_comp q = c_id c -> c_sel c <= p_prio q -> p_state q <> InProgress /\ p_trig q = false).
+Proof. exact ready_only_if. Qed.
+Print Assumptions C01_checklist_ready_only_if_partial.
+Theorem C01_checklist_ready_if_partial : forall l c, (exists p, In p l /\ p_comp p = c_id c /\ p_valid p = true /\ p_nom p = true) ->
+  (forall q, In q l -> p_comp q = c_id c -> c_sel c <= p_prio q -> p_state q <> InProgress /\ p_trig q = false) ->
+  let '(l', c', o) := for_ready l c in
+  c_state c' = st_READY /\ l' = snd (prune (c_id c) (c_sel c) l) /\ (c_state c <> st_READY -> last o 0 = st_READY).
+Proof. exact ready_if. Qed.
+Print Assumptions C01_checklist_ready_if_partial.
+Theorem C01_checklist_failed_iff_partial : forall disc l cs cid st, In (cid, st) (snd (failed_components disc l cs)) <->
+  st = st_FAILED /\ l <> [] /\ disc = false /\
+  exists c, In c cs /\ c_id c = cid /\ c_state c <> st_FAILED /\ c_remote c = true /\
+    forall p, In p l -> p_comp p = cid -> (p_state p = Failed \/ p_state p = Succeeded \/ p_state p = Discovered) /\ p_nom p = false.
+Proof. exact failed_iff. Qed.
+Print Assumptions C01_checklist_failed_iff_partial.
+Theorem C01_checklist_ready_excludes_failed_partial : forall l c c2, c_id c2 = c_id c -> goes_ready l c = true -> fails l c2 = false.
+Proof. exact ready_excludes_failed. Qed.
+Print Assumptions C01_checklist_ready_excludes_failed_partial.
+Theorem C01_checklist_failed_excludes_ready_partial : forall l c c2, c_id c2 = c_id c -> fails l c2 = true -> for_ready l c = (l, c, []).
+Proof. exact failed_excludes_ready. Qed.
+Print Assumptions C01_checklist_failed_excludes_ready_partial.
+Theorem C01_checklist_ready_decision_idempotent_partial : forall l c, let '(l1, c1, o1) := for_ready l c in for_ready l1 c1 = (l1, c1, []).
+Proof. exact for_ready_idempotent. Qed.
+Print Assumptions C01_checklist_ready_decision_idempotent_partial.
+Theorem C01_checklist_failed_decision_idempotent_partial : forall disc l cs,
+  failed_components disc l (fst (failed_components disc l cs)) = (fst (failed_components disc l cs), []).
+Proof. exact failed_components_idempotent. Qed.
+Print Assumptions C01_checklist_failed_decision_idempotent_partial.
+
+(** ** nomination by the peer (priv_mark_pair_nominated) *)
+Theorem C01_checklist_nomination_ignored_when_controlling_partial : forall l c lc rc, mark_nominated true true l c lc rc = Some (false, l, c, []).
+Proof. exact mark_nominated_controlling_rfc. Qed.
+Print Assumptions C01_checklist_nomination_ignored_when_controlling_partial.
+Theorem C01_checklist_nomination_without_pair_partial : forall rfc ctl l c lc rc, Forall (fun p => matches lc rc p = false) l ->
+  mark_nominated rfc ctl l c lc rc = Some (false, l, c, []).
+Proof. exact mark_nominated_no_match. Qed.
+Print Assumptions C01_checklist_nomination_without_pair_partial.
+(** RFC 5245 agents never nominate a pair that is not valid: the request is remembered for the response of the check in flight, or dropped *)
+Theorem C01_checklist_nomination_needs_valid_partial : forall p res L c out t0,
+  find_id (if is_state Succeeded p && negb (p_disc p =? 0) then p_disc p else p_id p) L = Some t0 ->
+  p_valid t0 = false -> p_nom t0 = false ->
+  mark_body true p (res, L, c, out) =
+  Some (res || (p_trig t0 || is_state InProgress t0),
+        if p_trig t0 || is_state InProgress t0 then update_id (p_id t0) (fun q => set_mnora q true) L else L, c, out ++ []).
+Proof. exact mark_body_rfc_not_valid. Qed.
+Print Assumptions C01_checklist_nomination_needs_valid_partial.
+Theorem C01_checklist_nomination_of_valid_pair_partial : forall rfc p res L c out t0,
+  find_id (if is_state Succeeded p && negb (p_disc p =? 0) then p_disc p else p_id p) L = Some t0 -> p_valid t0 = true ->
+  mark_body rfc p (res, L, c, out) =
+  let '(c2, o2) := comp_step c (p_prio t0) in
+  let '(L3, c3, o3) := for_ready (nominate_target rfc t0 L) c2 in Some (true, L3, c3, out ++ o2 ++ o3).
+Proof. exact mark_body_valid. Qed.
+Print Assumptions C01_checklist_nomination_of_valid_pair_partial.
+(** the selected priority only grows; FAILED and CONNECTING components end CONNECTED before the READY decision, others keep their state *)
+Theorem C01_checklist_nomination_component_step_partial : forall c prio, let c2 := fst (comp_step c prio) in
+  c_sel c2 = Z.max (c_sel c) prio /\ c_id c2 = c_id c /\ c_remote c2 = c_remote c /\
+  (c_state c = st_FAILED \/ c_state c = st_CONNECTING -> c_state c2 = st_CONNECTED) /\
+  (c_state c <> st_FAILED -> c_state c <> st_CONNECTING -> c_state c2 = c_state c /\ snd (comp_step c prio) = []).
+Proof. exact comp_step_spec. Qed.
+Print Assumptions C01_checklist_nomination_component_step_partial.
+(** memory safety of the loop (the model yields None where the C code reads freed memory): neither the link under the cursor nor a
+    discovered_pair it follows is deleted by the pruning the body triggers, provided no pair of the nominated candidates - nor the pair
+    discovered by it - is FROZEN, WAITING or queued for a triggered check, and discovered_pair does not dangle at entry.
+    The two witnesses at the end show lists outside this condition on which the real function reads freed memory (ASan-confirmed) *)
+Theorem C01_checklist_nomination_loop_memory_safe_partial : forall rfc ctl l c lc rc,
+  (forall p, In p l -> matches lc rc p = true -> safe p /\ exists t, In t l /\ p_id t = tid p /\ safe t) ->
+  mark_nominated rfc ctl l c lc rc <> None.
+Proof. exact mark_nominated_memory_safe. Qed.
+Print Assumptions C01_checklist_nomination_loop_memory_safe_partial.
+
+(** ** witnesses: natural statements the code does not satisfy, and satisfiability of the hypotheses above *)
+Example C01_checklist_rfc8445_frozen_waits_for_in_progress_refuted :
+  unfreeze_next [[mk 1 1 7 7 20 InProgress false false false; mk 2 2 7 7 10 Frozen false false false]]
+  = (true, [[mk 1 1 7 7 20 InProgress false false false; mk 2 2 7 7 10 Waiting false false false]]).
+Proof. exact rfc8445_frozen_waits_for_in_progress_refuted. Qed.
+Example C01_checklist_rfc8445_equal_priority_lowest_component_refuted :
+  let l := [mk 1 2 1 1 50 Waiting false false false; mk 2 1 2 2 50 Waiting false false false] in
+  sorted_desc l /\ option_map p_comp (find_next_waiting l) = Some 2.
+Proof. exact rfc8445_equal_priority_lowest_component_refuted. Qed.
+Example C01_checklist_ready_needs_succeeded_pair_refuted :
+  for_ready [mk 1 1 1 1 50 Failed true true false] (mkComp 1 st_CONNECTED 50 true)
+  = ([mk 1 1 1 1 50 Failed true true false], mkComp 1 st_READY 50 true, [st_READY]).
+Proof. exact ready_with_failed_nominated_pair_refuted. Qed.
+Example C01_checklist_ready_waits_for_better_pairs_refuted :
+  for_ready [mk 1 1 1 1 90 Frozen false false false; mk 2 1 2 2 50 Succeeded true true false] (mkComp 1 st_CONNECTED 50 true)
+  = ([mk 2 1 2 2 50 Succeeded true true false], mkComp 1 st_READY 50 true, [st_READY]).
+Proof. exact ready_discards_untried_better_pair. Qed.
+Example C01_checklist_prune_never_removes_nominated_refuted :
+  prune 1 80 [mk 1 1 1 1 80 Succeeded true true false; mk 2 1 2 2 50 Succeeded true true true]
+  = (0, [mk 1 1 1 1 80 Succeeded true true false]).
+Proof. exact prune_never_removes_nominated_refuted. Qed.
+Example C01_checklist_failed_means_all_pairs_failed_refuted :
+  failed_components false [mk 1 1 1 1 50 Succeeded false true false] [mkComp 1 st_CONNECTED 0 true]
+  = ([mkComp 1 st_FAILED 0 true], [(1, st_FAILED)]).
+Proof. exact failed_with_valid_pairs_refuted. Qed.
+Example C01_checklist_nomination_loop_cursor_freed :
+  mark_nominated false false [mk 1 1 1 1 80 Succeeded true true false; mk 2 1 2 2 50 Waiting false false true] (mkComp 1 st_READY 80 true) 2 2 = None.
+Proof. exact mark_nominated_cursor_freed. Qed.
+Example C01_checklist_dangling_discovered_pair_after_prune :
+  let parent := mkPair 1 1 1 1 1 1 90 Succeeded false false false false false false false 2 in
+  let disc := mkPair 2 1 3 1 3 1 40 Discovered true true false false false false true 0 in
+  let best := mk 3 1 5 5 80 Succeeded true true false in
+  prune 1 80 [parent; best; disc] = (0, [parent; best]) /\
+  mark_nominated false false [parent; best] (mkComp 1 st_READY 80 true) 1 1 = None.
+Proof. exact dangling_discovered_pair_after_prune. Qed.
+Example C01_checklist_unfreeze_progress_example :
+  unfreeze_next [[mk 1 1 7 7 30 Frozen false false false; mk 2 2 7 7 20 Frozen false false false]; [mk 3 1 8 7 10 Frozen false false false]]
+  = (true, [[mk 1 1 7 7 30 Waiting false false false; mk 2 2 7 7 20 Frozen false false false]; [mk 3 1 8 7 10 Waiting false false false]]).
+Proof. exact unfreeze_progress_example. Qed.
